@@ -85,6 +85,28 @@ CLAIMED = {
         "note": "Finite numbers, schema validity of the output, JSON serialisability, temperature envelopes and the numeric DO_AREA_TARGETING failure are NOT decided. "
                 "Options are modelled as free booleans; handler bodies must stay within the statement forms the explorer understands (else ANALYSIS-ERROR).",
     },
+    "C08": {
+        "category": "other",
+        "technique": "static analysis: writer/reader table agreement - every cumulative column label written anywhere in the package is a member of the interpolation table; "
+                     "no duplicate entries; CP/dH pairing table checked against the label enumeration",
+        "text": "Decides the table clause behind 'inserting temperature intervals never changes any curve': a cumulative column that some function writes but the "
+                "interpolation table omits is copied or zeroed in inserted rows, for every later insertion in the pipeline. The check enumerates all column writes "
+                "(subscript stores and dict literals keyed by ProblemTableLabel) and the two module tables on every run.",
+        "design_ref": "DESIGN.md 3.2 TABLE T1/T2",
+        "note": "Necessary condition only. Interpolation arithmetic, ordering and de-duplication within tolerance, and the interval-width bookkeeping of rebuilt rows are numeric "
+                "and NOT decided; in particular the off-centre interval-width behaviour named in the property is not detected by this check.",
+    },
+    "C13": {
+        "category": "other",
+        "technique": "static analysis: graph-type producer/consumer table agreement (tested key = key argument = subscript; requested columns subset of sliced columns; "
+                     "parallel literal lists of equal length; sibling consumers agree on per-series flags) and traversal parity between the record report and the graph-set builder",
+        "text": "Decides the structural clause 'each target record has exactly one graph set, keyed by its own name, with the documented graph types, each graph reading the "
+                "columns that were stored for it': for every graph type the builder renders, the key it tests, the key it emits and the table slice it reads agree, the "
+                "columns exist in every producer's slice, and both traversals visit every target of every zone.",
+        "design_ref": "DESIGN.md 3.2 TABLE T3, TRAV",
+        "note": "That emitted points lie on the curves, the collinear-point pruning, end trimming and the sign classification of segments are numeric and NOT decided. "
+                "Distinctness of record names across equally named zones is data-dependent and not decided.",
+    },
 }
 
 _NOT_BUILT = "claimed in DESIGN.md but the check is not built yet in this round"
